@@ -366,6 +366,21 @@ func Run(c Cfg, choose Chooser, maxLabels int) Result {
 				res.Skewed = true
 				break
 			}
+			// a PT label fires the per-try timer of attempt ptIdx0 only: a reset of a later attempt right after it means
+			// the next attempt's timer fired inside this label as well (the label took longer than a per-try timeout)
+			if hasPT0 && lb == "PT" {
+				late := false
+				for _, tk := range strings.Split(Canon(ex.Trace()), ",") {
+					var k int
+					if n, _ := fmt.Sscanf(tk, "ur:%d", &k); n == 1 && k > ptIdx0 {
+						late = true
+					}
+				}
+				if late {
+					res.Skewed = true
+					break
+				}
+			}
 		}
 	}
 	// confirm the final state is settled: nothing may move in a second window (when no deadline falls into it)
